@@ -4,13 +4,15 @@ from fractions import Fraction
 
 
 def scal(c, kind):
-    v = float(c) if Fraction(c).denominator != 1 or kind in ("float", "np64", "torch0d") else int(c)
+    v = float(c) if Fraction(c).denominator != 1 or kind in ("float", "np64", "np32", "torch0d") else int(c)
     if kind == "int":
         return int(c) if Fraction(c).denominator == 1 else float(c)
     if kind == "float":
         return float(c)
     if kind == "np64":
         return np.float64(float(c))
+    if kind == "np32":
+        return np.float32(float(c))          # only used with scalars that float32 represents exactly
     if kind == "npint":
         return np.int64(int(c)) if Fraction(c).denominator == 1 else np.float64(float(c))
     if kind == "torch0d":
@@ -110,7 +112,7 @@ def depth(e):
 
 
 SCALARS = [(0, 1), (1, 1), (-1, 1), (2, 1), (-3, 1), (1, 2), (-1, 4), (8, 1), (5, 1), (1, 10), (1, 3)]
-SKINDS = ["int", "float", "np64", "npint", "torch0d"]
+SKINDS = ["int", "float", "np64", "npint", "torch0d", "np32"]
 
 
 class Prop:
@@ -163,6 +165,14 @@ class Prop:
             sb = [1 if rng.random() < 0.4 else d for d in full]
             a = rand_tensor_json(rng, sa, maxr=2); b = rand_tensor_json(rng, sb, maxr=2)
             mk([a, b], [ops[k % 3], ["leaf", 0], ["leaf", 1]], op=ops[k % 3], kind="broadcast"); k += 1
+        # shapes that NumPy refuses to broadcast (sizes differ and neither is 1; multiples included): must be rejected
+        for _ in range(40 if quick else 300):
+            N = rng.randint(1, 3)
+            sa = [rng.choice([1, 2, 3]) for _ in range(N)]; sb = list(sa)
+            d = rng.randrange(N)
+            sa[d], sb[d] = rng.choice([(2, 4), (4, 2), (3, 6), (2, 3), (3, 2), (2, 6)])
+            a = rand_tensor_json(rng, sa, maxr=2); b = rand_tensor_json(rng, sb, maxr=2)
+            mk([a, b], [ops[k % 3], ["leaf", 0], ["leaf", 1]], op=ops[k % 3], kind="incompatible"); k += 1
         # rank-deficient / zero operands
         for _ in range(10 if quick else 60):
             N = rng.randint(1, 3); shape = [rng.choice([1, 2, 3]) for _ in range(N)]
@@ -178,6 +188,8 @@ class Prop:
                             continue
                         if op in ("rsub", "subs", "div") and side == "L":
                             continue      # these forms fix the side themselves
+                        if kind == "np32" and c[1] not in (1, 2, 4):
+                            continue      # float32(1/10) is a different number: only exactly representable scalars
                         N = 1 + k % 3; k += 1
                         shape = [rng.choice([1, 2, 3]) for _ in range(N)]
                         a = rand_tensor_json(rng, shape, maxr=2)
